@@ -31,6 +31,8 @@ func rulesC03(w *World, r *Report) {
 		return strings.Contains(o.Key, "C11.R1") && strings.Contains(o.Key, "· Decoder.")
 	})
 	w.ruleLocalIndexInRange(r, "C03.R8 element accesses of local containers are in range", 3)
+	w.ruleAppendStartsEmpty(r, "C03.R9 a container grown by appending starts empty", 2)
+	w.ruleReadersAcceptSpecTags(r, "C03.R10 a container reader accepts every tag of its production", 3)
 	w.ruleCountGuardsTight(r, "C03.R7 count guards refuse only negative counts", 3)
 	w.ruleIndexGuardsTightPX(r, "C03.R7 index guards refuse only invalid indices")
 	w.ruleGetTagProtocol(r, "C03.R0 tag hand-on protocol")
